@@ -305,6 +305,20 @@ def _job(args):
             return []
         styled = (tuple(sp_quat(q_to_float(x)) if i == ks[0] else x for i, x in enumerate(a)), kw)
         a = tuple(a)
+    elif name.endswith("@iv"):
+        # the matrix written INLINE as an unnamed view of data the caller keeps - fn(quaternion.as_quat_array(data), ...),
+        # fn(M[:k, :k]), fn(stack[i]) -: no name refers to the argument object, but its memory is the caller's; the call is
+        # judged against that memory as it is afterwards
+        from .qlib import q_to_float
+        jn, fn, a, kw = build(name[:-3], n, rng)
+        a = list(a)
+        ks = [i for i, x in enumerate(a) if isinstance(x, np.ndarray) and x.dtype == np.quaternion and x.ndim == 2]
+        if not ks:
+            return []
+        inline_k = ks[0]
+        inline_data = np.ascontiguousarray(q_to_float(a[inline_k]))
+        a[inline_k] = quaternion.as_quat_array(inline_data)          # the caller's window on its own data (for the judge)
+        a = tuple(a)
     elif name.endswith(("@we", "@rb", "@rt", "@th")):
         jn, fn, a, kw = build(name[:-3], n, rng)
         if name.endswith("@rt") and not (a and not isinstance(a[0], np.ndarray) and hasattr(a[0], "tol")):
@@ -457,6 +471,10 @@ def _job(args):
                 if box[0][0] == "exc":
                     raise box[0][1]
                 out = box[0][1]
+            elif name.endswith("@iv"):
+                env_ = {"fn": fn, "mk": (lambda: quaternion.as_quat_array(inline_data)), "kw": kw_call}
+                env_.update({"x%d" % i_: x_ for i_, x_ in enumerate(a_call)})
+                out = eval("fn(" + ", ".join("mk()" if i_ == inline_k else "x%d" % i_ for i_ in range(len(a_call))) + ", **kw)", env_)
             elif name.endswith("@we"):
                 # a strict interpreter (python -W error::DeprecationWarning, the way many test suites run): behaviour that
                 # numpy announces "will error in future" is an error now
@@ -583,6 +601,7 @@ def stage(ctx, quick=False):
             jobs.append((nm + "@rt", n, ctx.seed * 1013 + 61 * n + len(jobs)))
             jobs.append((nm + "@sp", n, ctx.seed * 1013 + 67 * n + len(jobs)))
             jobs.append((nm + "@th", n, ctx.seed * 1013 + 71 * n + len(jobs)))
+            jobs.append((nm + "@iv", n, ctx.seed * 1013 + 73 * n + len(jobs)))
             jobs.append((nm + "@df", n, ctx.seed * 1013 + 43 * n + len(jobs)))
             for st_ in ("@pp", "@kw", "@oc", "@o0"):
                 jobs.append((nm + st_, n, ctx.seed * 1013 + 47 * n + len(jobs)))
